@@ -70,7 +70,18 @@ func (codec *wsCodec) ReadMessage() (*jsonrpc2.Message, error) {
 	if err != nil {
 		return nil, err
 	}
-	return codec.inner.ReadMessage()
+	msg, err := codec.inner.ReadMessage()
+	if err != nil {
+		return msg, err
+	}
+	// The decoder stops at the end of the JSON value. Whatever is left of
+	// this websocket message (the trailing newline, which lands in a later
+	// fragment when the message is larger than the writer's buffer) must be
+	// consumed before the next frame header can be read.
+	if err := codec.r.Discard(); err != nil {
+		return nil, err
+	}
+	return msg, nil
 }
 
 func (codec *wsCodec) WriteMessage(msg *jsonrpc2.Message) error {
